@@ -271,6 +271,9 @@ class CMapDB:
         except KeyError:
             pass
         data = cls._load_data(name)
+        if not hasattr(data, "CODE2CID"):
+            # e.g. the name of a to-unicode resource used as an encoding
+            raise CMapDB.CMapNotFound(name)
         cls._cmap_cache[name] = cmap = PyCMap(name, data)
         return cmap
 
